@@ -305,6 +305,19 @@ class DT:
                 return self.stores[path]
             cls = None
             bc = self.cls_of(base)
+            if base.path == "self" and env.get("__fi__") is not None and env["__fi__"].cls:
+                bc = bc or env["__fi__"].cls
+            if bc and not self.pm.is_pydantic(bc):
+                for c0 in self.pm.mro(bc):
+                    ci = self.pm.classes.get(c0)
+                    if ci and n.attr in ci.class_assigns and isinstance(ci.class_assigns[n.attr], (ast.Dict, ast.List, ast.Set)):
+                        from .consteval import const_expr
+                        from .absint import NOC
+                        v = const_expr(self.pm, ci.module, ci.class_assigns[n.attr])
+                        if v is not NOC:
+                            import copy
+                            self.stores[path] = copy.deepcopy(v)
+                            return self.stores[path]
             if bc:
                 ann = self.pm.field_ann(bc, n.attr)
                 if ann:
